@@ -355,38 +355,7 @@ def rules(ctx):
                          "format letter, C type and Python argument agree" if okt and okp and okn else
                          "argument %d: Python passes `%s`, format letter %r, C target `%s %s` - %s" % (
                              i, at, letter, cty, tgt, 'type mismatch' if not okt else 'wrong kind of Python value' if not okp else 'slot order mismatch'))
-    # boolean wrappers
-    for name, (conv, spin_fn) in BOOL.items():
-        fn = P.func('_anneal.%s' % name)
-        rets = [n for n in walk_no_nested(strip_docstring(fn.node.body)) if isinstance(n, ast.Return)]
-        ok = len(rets) == 1
-        v = rets[0].value if ok else None
-        tb = ok and isinstance(v, ast.Call) and isinstance(v.func, ast.Attribute) and v.func.attr == 'to_boolean' and not v.args
-        ctx.inst('R11.4', fn, rets[0] if rets else 'return', bool(tb), "results converted with .to_boolean()" if tb else
-                 "%s does not return <spin results>.to_boolean(): states stay in {1,-1} / flag stays spin" % name)
-        inner = v.func.value if tb else None
-        oki = isinstance(inner, ast.Call) and is_name(inner.func, spin_fn)
-        ctx.inst('R11.1', fn, inner if inner is not None else 'spin call', bool(oki), "delegates to %s" % spin_fn if oki else
-                 "%s does not delegate to %s" % (name, spin_fn))
-        if oki:
-            a0 = inner.args[0]
-            okc = isinstance(a0, ast.Call) and is_name(a0.func, conv) and is_name(a0.args[0], fn.params[0])
-            ctx.inst('R11.4', fn, a0, okc, "model converted with %s" % conv if okc else
-                     "the model is passed as `%s`, not %s(%s)" % (src(a0), conv, fn.params[0]))
-            tgt = P.func('_anneal.%s' % spin_fn)
-            from ..astutil import bind_args
-            b = bind_args(inner, tgt, skip_self=False)
-            isv = b.get('initial_state')
-            okis = isv is not None and canon_src(isv) == 'None if initial_state is None else boolean_to_spin(initial_state)'
-            ctx.inst('R11.4', fn, isv if isv is not None else 'initial_state', okis,
-                     "initial state converted to spin when given" if okis else
-                     "initial_state is passed as `%s`, not boolean_to_spin(initial_state) guarded by `is not None`" % (src(isv) if isv is not None else None))
-            check_forwarding(ctx, 'R11.5', fn, inner, tgt, 'func')
-            for opt in fn.params[1:]:
-                if opt == 'initial_state':
-                    continue
-                okf = opt in b and is_name(b[opt], opt)
-                ctx.inst('R11.5', fn, '%s forwarded' % opt, okf, "forwarded" if okf else "option `%s` is not passed on to %s" % (opt, spin_fn))
+    boolean_wrappers(ctx, 'R11.4', 'R11.1', 'R11.5')
     # forwarding inside spin functions to the schedule helper and the C call (seed, in_order)
     for name, cname in SPIN_FUNCS.items():
         fn = P.func('_anneal.%s' % name)
@@ -407,6 +376,54 @@ def rules(ctx):
     state_value_set(ctx, 'R11.8')
     energy_loops(ctx, 'R11.9')
     layout_agreement(ctx, 'R11.6')
+
+
+def boolean_wrappers(ctx, r_triad, r_deleg, r_fwd):
+    """anneal_qubo / anneal_pubo: model -> spin, initial state -> spin when given, every option forwarded to its namesake,
+    results -> boolean."""
+    P = ctx.prog
+    for name, (conv, spin_fn) in BOOL.items():
+        fn = P.func('_anneal.%s' % name)
+        rets = [n for n in walk_no_nested(strip_docstring(fn.node.body)) if isinstance(n, ast.Return)]
+        ok = len(rets) == 1
+        v = rets[0].value if ok else None
+        tb = ok and isinstance(v, ast.Call) and isinstance(v.func, ast.Attribute) and v.func.attr == 'to_boolean' and not v.args
+        ctx.inst(r_triad, fn, rets[0] if rets else 'return', bool(tb), "results converted with .to_boolean()" if tb else
+                 "%s does not return <spin results>.to_boolean(): states stay in {1,-1} / flag stays spin" % name)
+        inner = v.func.value if tb else None
+        oki = isinstance(inner, ast.Call) and is_name(inner.func, spin_fn)
+        ctx.inst(r_deleg, fn, inner if inner is not None else 'spin call', bool(oki), "delegates to %s" % spin_fn if oki else
+                 "%s does not delegate to %s" % (name, spin_fn))
+        if oki:
+            a0 = inner.args[0]
+            okc = isinstance(a0, ast.Call) and is_name(a0.func, conv) and is_name(a0.args[0], fn.params[0])
+            ctx.inst(r_triad, fn, a0, okc, "model converted with %s" % conv if okc else
+                     "the model is passed as `%s`, not %s(%s)" % (src(a0), conv, fn.params[0]))
+            tgt = P.func('_anneal.%s' % spin_fn)
+            from ..astutil import bind_args
+            b = bind_args(inner, tgt, skip_self=False)
+            isv = b.get('initial_state')
+            okis = isv is not None and canon_src(isv) == 'None if initial_state is None else boolean_to_spin(initial_state)'
+            if isv is not None and not okis and is_name(isv, 'initial_state'):
+                # converted beforehand: `if initial_state is not None: initial_state = boolean_to_spin(initial_state)`
+                gw = cfg_of(fn.node)
+                for n_ in gw.stmts():
+                    if isinstance(n_, ast.Assign) and len(n_.targets) == 1 and is_name(n_.targets[0], 'initial_state') \
+                            and src(n_.value) == 'boolean_to_spin(initial_state)':
+                        fs = []
+                        for t_, pol_, o_ in gw.edge_dominators(n_):
+                            fs += compare_atoms(t_, pol_)
+                        if ('initial_state', 'is not', 'None') in fs and gw.reaches(n_, enclosing_stmt(inner)):
+                            okis = True
+            ctx.inst(r_triad, fn, isv if isv is not None else 'initial_state', okis,
+                     "initial state converted to spin when given" if okis else
+                     "initial_state is passed as `%s`, not boolean_to_spin(initial_state) guarded by `is not None`" % (src(isv) if isv is not None else None))
+            check_forwarding(ctx, r_fwd, fn, inner, tgt, 'func')
+            for opt in fn.params[1:]:
+                if opt == 'initial_state':
+                    continue
+                okf = opt in b and is_name(b[opt], opt)
+                ctx.inst(r_fwd, fn, '%s forwarded' % opt, okf, "forwarded" if okf else "option `%s` is not passed on to %s" % (opt, spin_fn))
 
 
 def package_rules(ctx, where, host, pst, pvl, pof, prm):
